@@ -479,6 +479,10 @@ class FakeG(object):
     w = self.world
     w.log.append((w.clock.now, 'close', self.port, self._conn.cid if self._conn else None))
     if self._conn is not None:
+      if not hasattr(w, 'closes'):
+        w.closes = []
+      w.closes.append((w.clock.now, self.port, self._conn.cid, w.next_seq() if hasattr(w, 'next_seq') else None))
+    if self._conn is not None:
       self._conn.closed_by_client = True
       srv = w.servers.get(self.port)
       if srv:
